@@ -277,9 +277,10 @@ func (p *proxyConn) handleUpgradeResponse(res *http.Response) error {
 
 	uconn, ok := res.Body.(io.ReadWriteCloser)
 	if !ok {
-		log.Error(res.Request.Context(), "internal error: switching protocols response with non-writable body")
-		p.traceWroteResponse(res, errors.New("switching protocols response with non-writable body"))
-		return errClose
+		// The transport only hands over the connection for an upgrade that was asked for.
+		log.Error(res.Request.Context(), "switching protocols response to a request that did not ask for an upgrade")
+		res.Body.Close()
+		return p.writeErrorResponse(res.Request, errors.New("unsolicited 101 Switching Protocols response"))
 	}
 	res.Body = panicBody
 
